@@ -215,6 +215,14 @@ inline const std::vector<PropList>& property_lists() {
     v.push_back({"s_bin_nul", {{"a", {ps(std::string("a\0b", 3))}}}});
     v.push_back({"s_bin_high", {{"a", {ps("\xff\x80\x01")}}}});
     v.push_back({"s_empty", {{"a", {ps("")}}}});
+    // binary values of EQUAL length that agree up to an embedded 0x00 and differ after it (property values are byte
+    // strings: a C-string comparison anywhere would merge them), next to genuine duplicates (which may share a table entry)
+    auto B = [](std::initializer_list<int> b) { std::string s; for (int x : b) s.push_back((char)x); return ps(s); };
+    v.push_back({"bin_nul_pair_same_property", {{"b", {B({1, 2, 0, 0x10, 0x11}), B({1, 2, 0, 0x20, 0x21})}}}});
+    v.push_back({"bin_nul_pair_two_properties", {{"a", {B({0, 0x41})}}, {"b", {B({0, 0x42})}}}});
+    v.push_back({"bin_nul_triple_and_duplicate", {{"t", {B({1, 2, 0, 0x10, 0x11}), B({1, 2, 0, 0x20, 0x21}), B({1, 2, 0, 0x30, 0x31}), B({1, 2, 0, 0x10, 0x11})}}, {"u", {B({1, 2, 0, 0x30, 0x31}), B({1, 2, 0, 0x20, 0x21})}}}});
+    v.push_back({"bin_only_nuls_vs_nuls_plus_byte", {{"z", {B({0, 0}), B({0, 7}), B({0, 0, 0}), B({0, 0, 9}), B({0, 9, 0}), B({0, 0})}}}});
+    v.push_back({"bin_text_then_nul_then_differ", {{"a", {ps(std::string("ab\0cd", 5))}}, {"a", {ps(std::string("ab\0ce", 5)), ps("ab")}}}});
     v.push_back({"mixed5", {{"mixed", {pu(1), pi(-2), pr(0.5), ps("x y"), ps(std::string("\0", 1))}}}});
     v.push_back({"mixed_reals", {{"mixed", {pr(2), pu(2), pi(2), pr(0.5), ps("2")}}}});
     // value counts around the limit of the 4-bit count field of the PROPERTY record (15 = "count follows")
@@ -582,7 +590,7 @@ inline std::vector<Entry> make_entries() {
                 int pi_ = (int)k;
                 bool multi = props_multi(pi_);
                 std::string lbl = P[k].label;
-                bool red = (lbl == "mixed5") || (o == 2 && (lbl == "r_lossy_recip" || lbl == "sixteen_values" || lbl == "fifteen_values" || lbl == "three_props_shared_string" || lbl == "gds_property")) || (o <= 1 && lbl == "same_name_twice");
+                bool red = (lbl == "mixed5") || (o == 2 && lbl == "bin_nul_triple_and_duplicate") || (o == 2 && (lbl == "r_lossy_recip" || lbl == "sixteen_values" || lbl == "fifteen_values" || lbl == "three_props_shared_string" || lbl == "gds_property")) || (o <= 1 && lbl == "same_name_twice");
                 add_single(E, fmt("props.%s", owners[o]), P[k].label,
                            [=](Builder& b, Cell* a) {
                                switch (o) {
@@ -989,6 +997,25 @@ inline std::vector<Entry> make_entries() {
                 b.poly(c, tri, T(1, 0));  // element without properties after one with
             },
             [](Info& i) { i.multi_value_props = true; i.detectable = true; });
+    add_rep("binary_nul_values_across_owners", "equal-length binary property values that agree up to an embedded NUL, one on each owner: library, two cells, and every element kind in both cells; plus genuine duplicates",
+            [=](Builder& b) {
+                b.start();
+                auto bin = [](int tail) { std::string s("\x01\x02\x00", 3); s.push_back((char)tail); s.push_back((char)(tail + 1)); return ps(s); };
+                Cell* a = b.cell("A");
+                Cell* c = b.cell("B");
+                append_prop(b.lib->properties, "bin", {bin(0x10)});
+                append_prop(a->properties, "bin", {bin(0x20)});
+                append_prop(c->properties, "bin", {bin(0x30), bin(0x10)});                     // second value: genuine duplicate of the library's
+                append_prop(b.poly(a, tri, T(1, 0))->properties, "bin", {bin(0x40)});
+                append_prop(b.poly(a, quad, T(1, 1))->properties, "bin", {bin(0x50), bin(0x40)});
+                append_prop(b.fpath(a, {{0, 0}, {8, 0}}, 1, EndType::Flush, Vec2{0, 0}, T(2, 0))->properties, "other_name", {bin(0x60)});
+                append_prop(b.rpath(a, {{0, 4}, {8, 4}}, 0, EndType::Flush, Vec2{0, 0}, T(2, 1))->properties, "bin", {bin(0x70)});
+                append_prop(b.label(a, "L", Vec2{1, 1}, T(3, 0))->properties, "bin", {bin(0x22), bin(0x20)});
+                append_prop(b.ref(a, c, Vec2{5, 5})->properties, "bin", {bin(0x24)});
+                append_prop(b.poly(c, tri, T(1, 0))->properties, "bin", {bin(0x26)});
+                append_prop(b.label(c, "L", Vec2{2, 2}, T(3, 0))->properties, "bin", {ps(std::string("\0\0", 2)), ps(std::string("\0\x07", 2))});
+            },
+            [](Info& i) { i.multi_value_props = true; });
     add_rep("repetitions_all_kinds", "one polygon per repetition of the alphabet (non-negative explicit x/y only)",
             [=](Builder& b) {
                 b.start();
